@@ -208,6 +208,41 @@ fn make_fault(rng: &mut Rng, spec: &SpecTable, tier: Tier) -> Option<(Vec<u8>, F
             o.unknown_pct = *rng.pick(&[0u64, 0, 50]);
             let doc = gen::gen_doc(rng, spec, &o);
             let mut e = enc::encode(&doc);
+            if rng.chance(1, 3) {
+                // the other way round: the innermost known-size ancestor is declared too short and ends inside the
+                // header of a child (of any kind, also an unknown-size master, whose header alone must still fit)
+                let cands: Vec<(usize, usize)> = (0..e.layout.elems.len())
+                    .filter_map(|i| {
+                        let anc = e.layout.ancestors(i);
+                        // ancestors are listed innermost first or outermost first? take the known-size one that starts last
+                        let a = anc.iter().copied().filter(|a| e.layout.elems[*a].size.is_some()).max_by_key(|a| e.layout.elems[*a].off)?;
+                        // nothing known-size between it and the child
+                        if anc.iter().any(|x| e.layout.elems[*x].off > e.layout.elems[a].off && e.layout.elems[*x].size.is_some()) {
+                            return None;
+                        }
+                        Some((i, a))
+                    })
+                    .collect();
+                if cands.is_empty() {
+                    return None;
+                }
+                let (xi, ai) = *rng.pick(&cands);
+                let el = e.layout.elems[xi].clone();
+                let a = e.layout.elems[ai].clone();
+                let hdr = el.data_start() - el.off;
+                if hdr < 2 {
+                    return None;
+                }
+                let k = rng.range(1, hdr - 1);
+                let new_size = (el.off + k - a.data_start()) as u64;
+                if new_size >= (1u64 << (7 * a.size_len)) - 1 {
+                    return None;
+                }
+                e.bytes[a.off + a.id_len..a.data_start()].copy_from_slice(&enc::size_vint(new_size, a.size_len));
+                let (m, op) = before_split(&e, xi);
+                // the size the error carries is the child's declared size, 0 for an unknown-size child
+                return Some((e.bytes, FaultInfo { class, off: el.off, id: el.id, size: el.size.unwrap_or(0) as usize, parent: el.parent.map(|p| e.layout.elems[p].id), before_mandatory: m, before_optional: op }, MaxSz::Limit(1 << 20)));
+            }
             let cands: Vec<usize> = (0..e.layout.elems.len()).filter(|i| {
                 let el = &e.layout.elems[*i];
                 !el.is_master && matches!(spec.ty(el.id), Some(Ty::Bin) | Some(Ty::Utf8)) && e.layout.ancestors(*i).iter().any(|a| e.layout.elems[*a].size.is_some())
